@@ -768,10 +768,58 @@ def compiled_patterns_leg(tier, report):
                                  f"match of the compiled pattern (flags included) gives {bad[2]!r}", {**case, "stack": bad[0]})
 
 
+def registration_leg(report):
+    """an abstract class (or runtime protocol) as predicate means 'the class and its subclasses' AS THEY ARE when the predicate is
+    evaluated: a virtual subclass registered with ABC.register after an earlier evaluation must be matched afterwards - by the old
+    checker object, by a fresh one and end to end by a fresh retort.  All orders of {evaluate, register} of length <= 3."""
+    import abc
+    med = mediator()
+    for forms in itertools.product(("old", "fresh", "e2e"), repeat=2):
+        class Shape(abc.ABC):
+            @abc.abstractmethod
+            def area(self):
+                ...
+
+        class Square:
+            def __init__(self, side=0):
+                self.side = side
+
+            def area(self):
+                return self.side ** 2
+
+        class Other:
+            pass
+
+        stacks = {c: LocStack(TypeHintLoc(type=c)) for c in (Square, Other)}
+        old = create_loc_stack_checker(Shape)
+
+        def evaluate(form, cls, old=old, Shape=Shape, stacks=stacks):
+            if form == "old":
+                return old.check_loc_stack(med, stacks[cls])
+            if form == "fresh":
+                return create_loc_stack_checker(Shape).check_loc_stack(med, stacks[cls])
+            try:
+                return Retort(recipe=[loader(Shape, lambda d: "served by the Shape loader")]).get_loader(cls)(1) == "served by the Shape loader"
+            except Exception:  # noqa: BLE001
+                return False
+        case = {"leg": "registration", "before": forms[0], "after": forms[1]}
+        report.case(("registration", forms), nontrivial=True, sample=case)
+        before = {c.__name__: evaluate(forms[0], c) for c in (Square, Other)}
+        Shape.register(Square)
+        after = {c.__name__: evaluate(forms[1], c) for c in (Square, Other)}
+        report.evaluations += 4
+        report.outcome("registration:checked")
+        if before != {"Square": False, "Other": False} or after != {"Square": True, "Other": False}:
+            report.violation({"check": "C10.registration", "before": forms[0], "after": forms[1]},
+                             f"abstract class Shape as predicate, evaluated ({forms[0]}) before and ({forms[1]}) after Shape.register(Square): "
+                             f"before {before}, after {after}; the documented meaning is False/False then True/False", case)
+
+
 def run(tier):
     ref_pred.self_check()
     report = Report()
     compiled_patterns_leg(tier, report)
+    registration_leg(report)
     exprs = expression_space()
     stacks = stack_space(tier)
     mediator()
